@@ -61,6 +61,9 @@ var fragments = []struct{ name, text string }{
 	{"large-string-1500B", "var Big$I = \"" + strings.Repeat("x", 1500) + "\"\n"},
 	{"large-comment-5KiB", strings.Repeat("// "+strings.Repeat("c", 97)+"\n", 50) + "var AfterComment$I int\n"},
 	{"huge-decl-70KiB", "var Huge$I = []int{\n" + strings.Repeat("\t1, 2, 3, 4, 5, 6, 7, 8, 9, 10, 11, 12, 13, 14, 15, 16, 17, 18, 19, 20,\n", 1000) + "}\n"},
+	// an import declaration the generator renders ITSELF (no alias; the package name differs from the last path
+	// element), followed by a use of it: only legal as the first thing rendered, takes part in dedicated sequences
+	{"own-import-declaration", "import \"gopkg.in/yaml.v3\"\n\nvar Y$I = yaml.Node{}\n"},
 }
 
 var routes = []string{"one Block of the concatenation", "one Render call per fragment", "ONE RenderT call with every fragment as a template argument", "ONE Render call of a Snippets list", "ONE Render call of Sprintf(%v%v..)"}
@@ -427,12 +430,18 @@ func flatten(src []byte) (decls []string, comments []string, err error) {
 		}
 		return strings.Join(toks, " ")
 	}
+	var importSpecs []string
 	for _, d := range f.Decls {
 		switch x := d.(type) {
 		case *ast.FuncDecl:
 			decls = append(decls, pr(x))
 		case *ast.GenDecl:
 			if x.Tok == token.IMPORT {
+				// import specs are declarations too (a generator may render its own); how they are grouped and
+				// ordered is formatting, so they are listed as a sorted multiset in front of the other declarations
+				for _, sp := range x.Specs {
+					importSpecs = append(importSpecs, "import "+pr(sp))
+				}
 				continue
 			}
 			for _, sp := range x.Specs {
@@ -440,6 +449,8 @@ func flatten(src []byte) (decls []string, comments []string, err error) {
 			}
 		}
 	}
+	sort.Strings(importSpecs)
+	decls = append(importSpecs, decls...)
 	fset2 := token.NewFileSet()
 	f2, err := parser.ParseFile(fset2, "x.go", src, parser.ParseComments)
 	if err != nil {
@@ -480,7 +491,8 @@ func checkBatch(c *core.Ctx, mi int, items []Item) {
 	for i := range items {
 		// (not behind a fragment that lacks its final newline: the marker would be glued to it)
 		okEnd := func(fr []int) bool { t := fragText(fr); return t == "" || strings.HasSuffix(t, "\n") }
-		items[i].Markers = items[i].Markers || (withMarkers(i) && okEnd(items[i].Frags) && (items[i].Second == nil || okEnd(items[i].Second)))
+		ownImport := len(items[i].Frags) > 0 && items[i].Frags[0] == len(fragments)-1 // (nothing may be rendered in front of an import declaration)
+		items[i].Markers = items[i].Markers || (withMarkers(i) && !ownImport && okEnd(items[i].Frags) && (items[i].Second == nil || okEnd(items[i].Second)))
 	}
 	for i, it := range items {
 		name := fmt.Sprintf("k%05d", i)
@@ -616,8 +628,9 @@ func run(c *core.Ctx) {
 	maxSeq := c.Pick(2, 3)
 	c.Bound("max_fragments_per_file", maxSeq)
 	// the last menu entry (70 KiB) is expensive to format: it only takes part in dedicated sequences
-	nf := len(fragments) - 1
-	huge := len(fragments) - 1
+	nf := len(fragments) - 2
+	huge := len(fragments) - 2
+	ownImp := len(fragments) - 1
 	total := 0
 	for mi := range modules {
 		var items []Item
@@ -662,6 +675,9 @@ func run(c *core.Ctx) {
 		// the other routes by which the same fragments reach the writer (first module, import set 0)
 		if mi == 0 {
 			for _, seq := range [][]int{{huge}, {0, huge}, {huge, 0}, {6, huge, 3}, {16, huge}, {huge, huge}} {
+				items = append(items, Item{Frags: seq})
+			}
+			for _, seq := range [][]int{{ownImp}, {ownImp, 0}, {ownImp, 2}, {ownImp, 5}, {ownImp, 9}, {ownImp, 14}, {ownImp, 0, 0}} {
 				items = append(items, Item{Frags: seq})
 			}
 			n := len(items)
